@@ -176,6 +176,7 @@ pub fn step(w: &mut World, e: &Value) -> Value {
 			e["h"].as_u64().unwrap_or(1),
 			e["fees"].as_u64().unwrap_or(0) * w.unit,
 		),
+		"view_scan" => w.view_scan(&wn, e["start"].as_u64().unwrap_or(1)),
 		"build_output" => w.build_output(&wn, e["amt"].as_u64().unwrap_or(7)),
 		"mwix_req" => w.mwix_req(&wn, e["key"].as_str().unwrap_or(""), e["lock"].as_bool().unwrap_or(false)),
 		"scan" => w.scan(&wn, e["start"].as_i64().filter(|x| *x >= 0).map(|x| x as u64), e["del"].as_bool().unwrap_or(false)),
